@@ -100,6 +100,14 @@ theorem normalizeNear_is_nearest (now prev : ℝ) (h : |now - prev| ≤ 5 * Real
   push_cast
   ring_nf
 
+/-- [R] The `5π` range is sharp: from `6π` away two passes only come back to `2π`. -/
+theorem normalizeNear_range_sharp :
+    normalizeNear (6 * Real.pi) 0 = 2 * Real.pi ∧ ¬ |normalizeNear (6 * Real.pi) 0 - 0| ≤ Real.pi := by
+  have hpi := Real.pi_pos
+  refine ⟨normalizeNear_six_pi, ?_⟩
+  rw [normalizeNear_six_pi, sub_zero, abs_of_pos (by linarith)]
+  linarith
+
 example : |normalizeNear (1 : ℝ) (-3) - (-3)| ≤ Real.pi :=
   normalizeNear_nearest 1 (-3)
     (by rw [abs_of_nonneg] <;> linarith [Real.two_le_pi])
@@ -187,11 +195,6 @@ example : ∃ (k : Opw ℝ), k.p.dof ≠ 5 := ⟨⟨⟨1, 2, 3, 4, 5, 6, 7, defa
 
 /-! ### 6. Nothing that plain `inverse` finds is lost -/
 
-/-- the list `inverse_continuing` builds before filtering: shift loop, `normalize_near`, sort -/
-def sortedUnfiltered {R : Type} [OpwNum R] (k : Opw R) (pose : Iso R) (prev : J6 R) : List (J6 R) :=
-  k.sortByCloseness ((shiftLoop k pose (k.reference prev) shifts []).map
-    (fun s => s.normalizeNear (k.reference prev))) (k.reference prev)
-
 /-- [G] `inverse_continuing` (not 5-DOF) is the compliant part of `sortedUnfiltered` -/
 theorem inverseContinuing_eq {R : Type} [OpwNum R] (k : Opw R) (pose : Iso R) (prev : J6 R)
     (hdof : k.p.dof ≠ 5) :
@@ -232,15 +235,79 @@ theorem inverseContinuing_superset (k : Opw ℝ) (pose : Iso ℝ) (prev : J6 ℝ
   rw [reference_real] at h h'
   exact ⟨h, h'⟩
 
-/-- [R] without constraints nothing is filtered -/
-theorem inverseContinuing_superset_unconstrained (k : Opw ℝ) (pose : Iso ℝ) (prev : J6 ℝ)
-    (hdof : k.p.dof ≠ 5) (hcons : k.cons = none) (s : J6 ℝ) (hs : s ∈ k.inverse pose) :
+/-- [R] The constraint check is 2π-periodic, so moving a solution next to `prev` does not change
+whether it is compliant. -/
+theorem compliant_normalizeNear (k : Opw ℝ) (s prev : J6 ℝ) :
+    k.compliant (s.normalizeNear prev) = k.compliant s := Nearest.compliant_normalizeNear k s prev
+
+/-- [R] Every solution returned by plain `inverse` is returned by `inverse_continuing` as well
+(as its representative next to `prev`), with or without constraints. -/
+theorem inverse_subset_inverseContinuing (k : Opw ℝ) (pose : Iso ℝ) (prev : J6 ℝ)
+    (hdof : k.p.dof ≠ 5) (s : J6 ℝ) (hs : s ∈ k.inverse pose) :
     s.normalizeNear prev ∈ k.inverseContinuing pose prev := by
-  have hs' : s ∈ inverseIntern k.p pose := by
-    unfold Opw.inverse at hs
-    rw [if_neg (by simpa using hdof), mem_filterCompliant] at hs
-    exact hs.1
-  exact (inverseContinuing_superset k pose prev hdof s hs').2 (compliant_of_none k _ hcons)
+  unfold Opw.inverse at hs
+  rw [if_neg (by simpa using hdof), mem_filterCompliant] at hs
+  apply (inverseContinuing_superset k pose prev hdof s hs.1).2
+  rw [compliant_normalizeNear]
+  exact hs.2
+
+/-- non-vacuity: a robot (`c2 = c3 = 1`, other lengths `0`), the pose "tool at `(0,0,2)`, identity
+orientation", and the zero vector, which plain `inverse` returns -/
+example : ∃ (k : Opw ℝ) (pose : Iso ℝ) (s : J6 ℝ), k.p.dof ≠ 5 ∧ s ∈ k.inverse pose :=
+  ⟨exOpw, exPose, zero6, ex_dof, ex_mem_inverse⟩
+
+example : zero6.normalizeNear zero6 ∈ exOpw.inverseContinuing exPose zero6 :=
+  inverse_subset_inverseContinuing exOpw exPose zero6 ex_dof zero6 ex_mem_inverse
+
+/-! ### 6b. Every returned angle is the representative nearest to the previous angle -/
+
+/-- [R] each returned vector is a raw solution of the shift loop moved by `normalize_near` -/
+theorem inverseContinuing_mem_raw (k : Opw ℝ) (pose : Iso ℝ) (prev : J6 ℝ) (hdof : k.p.dof ≠ 5)
+    (s' : J6 ℝ) (h : s' ∈ k.inverseContinuing pose prev) :
+    ∃ s ∈ shiftLoop k pose prev shifts [], s' = s.normalizeNear prev := by
+  rw [inverseContinuing_eq k pose prev hdof, mem_filterCompliant] at h
+  have h1 := h.1
+  unfold sortedUnfiltered at h1
+  rw [mem_sortByCloseness, reference_real, List.mem_map] at h1
+  obtain ⟨s, hs, rfl⟩ := h1
+  exact ⟨s, hs, rfl⟩
+
+/-- [R] Sign corrections `±1` (`|sign| ≤ 1`), offsets at most `100000` rad (so that the fuel of
+`normPi` suffices), previous angles in `[-2π, 2π]`: every angle of every returned solution —
+6-DOF or 5-DOF path, regular or recovered singular candidate — is within `π` of the corresponding
+previous angle, hence (`normalizeNear_is_nearest`) the nearest 2π-representative. -/
+theorem inverseContinuing_nearest (k : Opw ℝ) (pose : Iso ℝ) (prev : J6 ℝ)
+    (hsign : absLe k.p.signs 1) (hoff : absLe k.p.offsets 100000) (hprev : absLe prev (2 * Real.pi))
+    (s' : J6 ℝ) (h : s' ∈ k.inverseContinuing pose prev) : within s' prev Real.pi := by
+  have hpi := Real.pi_pos
+  by_cases hdof : k.p.dof = 5
+  · unfold Opw.inverseContinuing at h
+    rw [if_pos (by simpa using hdof)] at h
+    unfold Opw.inverseContinuing5dof at h
+    rw [mem_filterCompliant] at h
+    have h1 := h.1
+    rw [mem_sortByCloseness, reference_real, List.mem_map] at h1
+    obtain ⟨s, hs, rfl⟩ := h1
+    obtain ⟨a1, a2, a3, a4, a5, a6⟩ := inverseIntern5_absLe _ _ _ s hsign hoff hs
+    obtain ⟨p1, p2, p3, p4, p5, p6⟩ := hprev
+    apply normalizeNear_within
+    refine ⟨?_, ?_, ?_, ?_, ?_, ?_⟩
+    · exact (abs_sub _ _).trans (by linarith)
+    · exact (abs_sub _ _).trans (by linarith)
+    · exact (abs_sub _ _).trans (by linarith)
+    · exact (abs_sub _ _).trans (by linarith)
+    · exact (abs_sub _ _).trans (by linarith)
+    · rw [a6, sub_self, abs_zero]; linarith
+  · obtain ⟨s, hs, rfl⟩ := inverseContinuing_mem_raw k pose prev hdof s' h
+    apply normalizeNear_within
+    exact within_mono (shiftLoop_within k pose prev hsign hoff hprev _ s hs) (by linarith)
+
+example : absLe exOpw.p.signs 1 ∧ absLe exOpw.p.offsets 100000 ∧ absLe zero6 (2 * Real.pi) ∧
+    zero6.normalizeNear zero6 ∈ exOpw.inverseContinuing exPose zero6 := by
+  have hpi := Real.pi_pos
+  refine ⟨?_, ?_, ?_, inverse_subset_inverseContinuing exOpw exPose zero6 ex_dof zero6 ex_mem_inverse⟩ <;>
+    simp only [absLe, exOpw, exParams, zero6, abs_one, abs_zero] <;>
+    refine ⟨?_, ?_, ?_, ?_, ?_, ?_⟩ <;> linarith
 
 /-! ### 7. A previous vector that is a solution comes back first -/
 
@@ -278,5 +345,25 @@ theorem prev_first (k : Opw ℝ) (pose : Iso ℝ) (prev : J6 ℝ) (hdof : k.p.do
   congr 1
   rw [hcost, hcost, calculateDistance_self] at hle
   exact (calculateDistance_eq_zero_iff h s).mp (le_antisymm hle (calculateDistance_nonneg h s))
+
+/-- [R] `normalize_near(x, x) = x`: a previous vector is its own nearest representative -/
+theorem normalizeNear_self (s : J6 ℝ) : s.normalizeNear s = s := J6_normalizeNear_self s
+
+/-- [R] If `prev` is itself one of the solutions `inverse_intern` finds for the pose (it realises
+the pose and the closed-form solver reproduces it — which is what fails at a wrist singularity),
+sorting is by distance to previous and `prev` is compliant, then `prev` is the first solution. -/
+theorem prev_first_of_solution (k : Opw ℝ) (pose : Iso ℝ) (prev : J6 ℝ) (hdof : k.p.dof ≠ 5)
+    (hmode : k.cons = none ∨ ∃ c, k.cons = some c ∧ c.sortingWeight = byPrev)
+    (hcomp : k.compliant prev = true) (hsol : prev ∈ inverseIntern k.p pose) :
+    (k.inverseContinuing pose prev).head? = some prev :=
+  prev_first k pose prev hdof hmode hcomp
+    ⟨prev.normalizeNear prev,
+      List.mem_map_of_mem (shiftLoop_shifts k pose prev (by rw [zeroShifted_real]; exact hsol)),
+      normalizeNear_self prev⟩
+
+/-- non-vacuity: for the example robot and pose the zero vector is a solution, there are no
+constraints, and it comes back first -/
+example : (exOpw.inverseContinuing exPose zero6).head? = some zero6 :=
+  prev_first_of_solution exOpw exPose zero6 ex_dof (Or.inl rfl) (compliant_of_none _ _ rfl) ex_mem
 
 end Opw.C04
